@@ -32,14 +32,14 @@ Imports nothing beyond core Lean.
 namespace Jap.Heap
 
 inductive Kind where
-  | list | tuple | set | dict | ns | odict | ntuple
+  | list | tuple | set | dict | ns | odict | ntuple | dictsub
 deriving DecidableEq, Repr, Inhabited
 
 def Kind.name : Kind → String
   | .list => "list" | .tuple => "tuple" | .set => "set" | .dict => "dict"
-  | .ns => "ns" | .odict => "odict" | .ntuple => "ntuple"
+  | .ns => "ns" | .odict => "odict" | .ntuple => "ntuple" | .dictsub => "dictsub"
 
-def Kind.all : List Kind := [.list, .tuple, .set, .dict, .ns, .odict, .ntuple]
+def Kind.all : List Kind := [.list, .tuple, .set, .dict, .ns, .odict, .ntuple, .dictsub]
 
 def Kind.ofName (s : String) : Option Kind := Kind.all.find? (fun k => k.name == s)
 
@@ -60,6 +60,8 @@ def T.ntuple (i : Nat) (xs : List T) : T := .node .ntuple i (seqKids xs)
 def T.dict (i : Nat) (kvs : Kids) : T := .node .dict i kvs
 def T.ns (i : Nat) (kvs : Kids) : T := .node .ns i kvs
 def T.odict (i : Nat) (kvs : Kids) : T := .node .odict i kvs
+/-- an instance of a dict subclass (`class MyDict(dict)`, `defaultdict`, `Counter` …) that is not an OrderedDict -/
+def T.dictsub (i : Nat) (kvs : Kids) : T := .node .dictsub i kvs
 
 /-! ### policy and copy sites (instantiated from Gen/HeapSites) -/
 
@@ -68,15 +70,19 @@ structure Policy where
   inplace : Kind → Bool
   /-- `strip_meta` copies an EMPTY configuration too (since fix 3b44d63; before, `if cfg:` handed it back itself) -/
   stripEmpty : Bool
+  /-- the copy `recreate_branches` makes of a dict-subclass instance holds its entries (since fix 2278288; before, the
+      instance `__dict__` was iterated instead of the mapping and the copy came out EMPTY) -/
+  subContent : Bool
 
 def lookupRow (s : String) : List (String × Bool × Bool) → Bool × Bool
   | [] => (false, false)
   | (n, r) :: rest => if n == s then r else lookupRow s rest
 
-def policyOfTable (tbl : List (String × Bool × Bool)) (stripEmpty : Bool) : Policy :=
+def policyOfTable (tbl : List (String × Bool × Bool)) (stripEmpty : Bool) (subContent : Bool) : Policy :=
   { recreated := fun k => (lookupRow k.name tbl).1
     inplace := fun k => (lookupRow k.name tbl).2
-    stripEmpty := stripEmpty }
+    stripEmpty := stripEmpty
+    subContent := subContent }
 
 /-- which operation copies its argument before doing anything else with it -/
 structure Sites where
@@ -174,8 +180,10 @@ def recreate (p : Policy) (skip : List String) : T → Nat → R T
   | .atom n, k => ⟨.atom n, k⟩
   | .node kd i kids, k =>
     if p.recreated kd then
-      let r := recreateK p skip kids k
-      ⟨.node kd r.next r.val, r.next + 1⟩
+      if kd = .dictsub && !p.subContent then ⟨.node kd k [], k + 1⟩   -- before fix 2278288: an empty copy
+      else
+        let r := recreateK p skip kids k
+        ⟨.node kd r.next r.val, r.next + 1⟩
     else ⟨.node kd i kids, k⟩
 def recreateK (p : Policy) (skip : List String) : Kids → Nat → R Kids
   | [], k => ⟨[], k⟩
@@ -417,12 +425,13 @@ def nsOfDict (o : R T) : R T :=
 /-- `parse_object(cfg_obj, cfg_base)`: defaults; base merged; the object is *copied*, a dict becomes a
     `Namespace(dict)`, the actions adapt the values in place; merged into the defaults; validated (on a clone). -/
 def parseObject (p : Policy) (cs : Sites) (defaults : Kids) (base : Option T) (obj : T) (k : Nat) : M T :=
-  let d1 := poDefaults p cs defaults base k
+  let d0 := poDefaults p cs defaults base k
+  let d1 := adaptMut p d0.val d0.next        -- `cfg = self._apply_actions(cfg)`: defaults merged with the base, adapted in place
   let o := nsOfDict (copyIf cs.parseObject (recreate p []) obj d1.next)
   let a := adaptMut p o.val o.next
   let mg := mergeConfig p cs a.val d1.val a.next
   let v := validate p cs mg.val mg.next
-  ⟨mg.val, d1.writes ++ a.writes ++ mg.writes ++ v.writes, [], v.next⟩
+  ⟨mg.val, d0.writes ++ d1.writes ++ a.writes ++ mg.writes ++ v.writes, [], v.next⟩
 
 /-- an assignment `cfg[dest] = …` into the root of the working configuration -/
 def rootWrite (p : Policy) : T → List Nat
